@@ -13,6 +13,8 @@ ops:
   random cb_state ctx=<ctxid>
   random svc_end_block dropped=<ctxid,..|-> gone=<ctxid,..|->   (real service EndBlocker; environment outcome)
   random svc_respond ctx=<ctxid> seed=<hex32> cb=<1|0|rej>          (provider response through the real service module)
+  random svc_break ctx=<ctxid> how=<delete|running>                 (environment: the context of a pending oracle request breaks)
+  random genesis_pending consumer=<A_i> reqh=<int> due=<uint64> txhash=<hex> oracle=<0|1> feecap=<coins|-> ctx=<ctxid|->   (random.InitGenesis)
   random prng hash=<hex|-> t=<int> init=<hex|-> oracle=<0|1> seed=<hex|->        (pure)
 -/
 import Irismod.Spec.C18
@@ -170,9 +172,28 @@ def applySvcEnd (s : State) (dropped gone : List String) : State :=
 inductive SvcLine where
   | endBlock (dropped gone : List String)
   | respond (ctx : String) (seed : ByteArray) (cb : String)
+  | breakCtx (ctx : String) (delete : Bool)
+  | genesisPending (due : Nat) (req : Request)
 
-def parseSvc (t : List String) : Option SvcLine :=
+def parseSvc (tbl : Table) (t : List String) : Option SvcLine :=
   match t with
+  | "random" :: "svc_break" :: r => do
+    let c ← arg? r "ctx"
+    let how ← arg? r "how"
+    if how ≠ "delete" ∧ how ≠ "running" then none else
+    some (.breakCtx c (how == "delete"))
+  | "random" :: "genesis_pending" :: r => do
+    let (c, ok) ← consumerOf tbl (arg r "consumer")
+    if !ok then none else
+    let reqh ← intArg? r "reqh"
+    let due ← u64Arg r "due"
+    let tx ← arg? r "txhash"
+    let o ← arg? r "oracle"
+    let cap ← arg? r "feecap"
+    let cx ← arg? r "ctx"
+    if o ≠ "0" ∧ o ≠ "1" then none else
+    some (.genesisPending due { height := reqh, consumer := c, txHash := undashS tx, oracle := o == "1",
+                                feeCap := undashS cap, ctxId := undashS cx })
   | "random" :: "svc_end_block" :: r => do
     let d ← arg? r "dropped"
     let g ← arg? r "gone"
@@ -193,6 +214,11 @@ def modelSvc (s : State) : SvcLine → State × String
       let r := step s (.cbResponse c (.valid seed) false)
       ((match r with | .ok s' => s' | .error _ => s), resWord r)
     else (s, if cb == "0" then "ok" else "rej")
+  -- the environment mirror: a deleted context no longer exists; a running one still does
+  | .breakCtx c delete => ((if delete then { s with ctxs := s.ctxs.filter (· != c) } else s), "ok")
+  -- `InitGenesis`: EnqueueRandomRequest(height, GenerateRequestID(request), request)
+  | .genesisPending due req =>
+    ({ s with queue := AMap.set s.queue (due, requestId req.height req.consumer) req }, "ok")
 
 def modelLine (tbl : Table) (s : State) (line : String) : Table × State × String :=
   let t := tokens line
@@ -206,7 +232,7 @@ def modelLine (tbl : Table) (s : State) (line : String) : Table × State × Stri
     | none => (tbl, s, "bad-op")
   | "random" :: "prng" :: r => (tbl, s, (prngLine r).getD "bad-op")
   | _ =>
-    match parseSvc t with
+    match parseSvc tbl t with
     | some sl => let (s', w) := modelSvc s sl; (tbl, s', w ++ " " ++ showState s')
     | none =>
     match parseOp tbl t with
@@ -262,7 +288,7 @@ def runMonitor (prop : String) (ops obs : Array String) : IO Unit := do
       else
         out.putStrLn s!"mon {prop} FAIL clause=parse line={i+1}"; fails := fails + 1
     | "random" :: "svc_end_block" :: _ =>
-      match parseSvc t, parseState o with
+      match parseSvc tbl t, parseState o with
       | some (.endBlock dropped gone), some p =>
         steps := steps + 1
         let word := o.head?.getD ""
@@ -277,8 +303,31 @@ def runMonitor (prop : String) (ops obs : Array String) : IO Unit := do
           out.putStrLn s!"mon {prop} FAIL clause=service-end-block-frame line={i+1}"; fails := fails + 1
         pre := post
       | _, _ => out.putStrLn s!"mon {prop} FAIL clause=parse line={i+1}"; fails := fails + 1
+    | "random" :: "svc_break" :: _ =>
+      match parseSvc tbl t, parseState o with
+      | some (.breakCtx c delete), some p =>
+        steps := steps + 1
+        let post : State := { p with unix := pre.unix, hash := pre.hash, addrs := pre.addrs,
+                                      ctxs := if delete then pre.ctxs.filter (· != c) else pre.ctxs }
+        if o.head? != some "ok" || !(Spec.C18.sameObs pre post) then
+          out.putStrLn s!"mon {prop} FAIL clause=environment-op-changed-state line={i+1}"; fails := fails + 1
+        pre := post
+      | _, _ => out.putStrLn s!"mon {prop} FAIL clause=parse line={i+1}"; fails := fails + 1
+    | "random" :: "genesis_pending" :: _ =>
+      match parseSvc tbl t, parseState o with
+      | some (.genesisPending due req), some p =>
+        steps := steps + 1
+        let post : State := { p with unix := pre.unix, hash := pre.hash, addrs := pre.addrs, ctxs := pre.ctxs }
+        let key := (due, requestId req.height req.consumer)
+        -- genesis import enqueues exactly the given request under (height, id of the request)
+        if o.head? != some "ok" || !(AMap.get? post.queue key == some req) ||
+           !(Spec.C18.sameMap pre.queue post.queue (· == key) && Spec.C18.sameMap pre.randoms post.randoms (fun _ => false) &&
+             Spec.C18.sameMap pre.oracleReqs post.oracleReqs (fun _ => false) && pre.height == post.height) then
+          out.putStrLn s!"mon {prop} FAIL clause=genesis-pending-import line={i+1}"; fails := fails + 1
+        pre := post
+      | _, _ => out.putStrLn s!"mon {prop} FAIL clause=parse line={i+1}"; fails := fails + 1
     | "random" :: "svc_respond" :: _ =>
-      match parseSvc t, parseState o with
+      match parseSvc tbl t, parseState o with
       | some (.respond c seed cb), some p =>
         steps := steps + 1
         let word := o.head?.getD ""
